@@ -59,7 +59,7 @@ Definition attempt_once (st : store K) (orc : bool) (k : K) (Edur B q now : Z) :
   let new := snd (fst (fst c)) in
   let ttl := snd (fst c) in
   let r := snd c in
-  if ok then
+  if ok && (0 <? q) then                                         (* allowed && quantity > 0 *)
     if systime_add_overflows now ttl then (st, Some Panic) else
     let op := match tat_val with
               | Some old => Cas k old new ttl now
